@@ -314,8 +314,10 @@ def execute(ns, scn):
         return out
     # ------------------------------------------------------------------ fault enumeration
     kinds = ITER_KINDS if skind == "iterative" else LAPACK_KINDS if skind == "lapack" else DIRECT_KINDS
-    if scn.get("sweep_all_positions"):
-        positions = list(range(nrec))
+    if scn.get("sweep_all_positions") and nrec * max(1, scn["object"]["nx"]) <= 6000:
+        positions = list(range(nrec))        # every call position (bounded so one scenario stays well under the wall limit)
+    elif scn.get("sweep_all_positions"):
+        positions = sorted(set([0, nrec - 1] + [int(round(j * (nrec - 1) / 23)) for j in range(24)]))
     else:
         positions = []
         for p in scn["positions"]:
